@@ -51,6 +51,7 @@ Squeeze(sq) == IF sq = << >> THEN << >> ELSE IF Head(sq) \in {" ", "\n"} THEN Sq
 Defined(lab) == Squeeze(lab) \in {<<"a">>, <<"A">>}              \* (and case-folded)
 BracketIn(a, b) == \E i \in a..b : txt[i] \in {"[", "]"} /\ ~EscapedAt(i)         \* an unescaped bracket between positions a and b
 
+CA == {"a", "[", "]", "!", "`"}                    \* code spans next to brackets and exclamation marks
 EA == {"a", "[", "]", "!", "\\"}                   \* backslash escapes next to brackets and exclamation marks
 NA == {"a", "[", "]", "(", ")", "\n"}          \* (a configuration file cannot spell a line end)
 Top == br[Len(br)]
@@ -59,15 +60,31 @@ Pop == SubSeq(br, 1, Len(br) - 1)
 RInit ==
     /\ txt \in {t \in UNION {[1..n -> RAlphabet] : n \in 1..RMaxLen} :
                   t[1] \notin {" ", "\n"} /\ t[Len(t)] \notin {" ", "\n"} /\ (\A i \in 1..(Len(t) - 1) : ~(t[i] = "\n" /\ t[i + 1] = "\n"))
+                  /\ ~(Len(t) >= 3 /\ t[1] = "`" /\ t[2] = "`" /\ t[3] = "`")                   \* (no code fence)
                   /\ (IOEnv.SHARD = "-" \/ t[1] = IOEnv.SHARD)}          \* (one paragraph: no blank line)
     /\ pos = 1 /\ br = << >> /\ out = << >> /\ phase = "scan"
 
 Literal == /\ out' = Append(out, C(pos)) /\ pos' = pos + 1
 
 ScanOther ==
-    /\ phase = "scan" /\ pos <= Len(txt) /\ txt[pos] \notin {"[", "]"} /\ ~(txt[pos] = "!" /\ At(pos + 1) = "[")
+    /\ phase = "scan" /\ pos <= Len(txt) /\ txt[pos] \notin {"[", "]", "`"} /\ ~(txt[pos] = "!" /\ At(pos + 1) = "[")
     /\ ~(txt[pos] = "\\" /\ At(pos + 1) \in Punct)
     /\ Literal /\ UNCHANGED <<txt, br, phase>>
+(* a code span: a run of n backticks up to the next run of exactly n backticks; what it covers is not scanned (a bracket inside is
+   no bracket).  Without a closing run the backticks are literal text. *)
+RECURSIVE TickRun(_)
+TickRun(i) == IF At(i) = "`" THEN 1 + TickRun(i + 1) ELSE 0
+CodeClose(i, n) == LET S == {q \in (i + n)..Len(txt) : txt[q] = "`" /\ txt[q - 1] # "`" /\ TickRun(q) = n} IN
+                   IF S = {} THEN 0 ELSE CHOOSE q \in S : \A q2 \in S : q <= q2
+CodeText(a, b) == LET c == Flat(SubSeq(txt, a, b))
+                      allsp == \A q \in a..b : txt[q] = " " IN
+                  IF Len(c) >= 2 /\ txt[a] = " " /\ txt[b] = " " /\ ~allsp THEN Flat(SubSeq(txt, a + 1, b - 1)) ELSE c
+ScanCode ==
+    /\ phase = "scan" /\ pos <= Len(txt) /\ txt[pos] = "`"
+    /\ LET n == TickRun(pos) c == CodeClose(pos, n) IN
+       IF c > 0 THEN /\ out' = Append(out, Mark("code", CodeText(pos + n, c - 1), "")) /\ pos' = c + n
+                ELSE /\ out' = out \o [q \in 1..n |-> C(pos + q - 1)] /\ pos' = pos + n
+    /\ UNCHANGED <<txt, br, phase>>
 (* an escape sequence: the backslash goes, the character is literal text *)
 ScanEscape ==
     /\ phase = "scan" /\ pos < Len(txt) /\ txt[pos] = "\\" /\ txt[pos + 1] \in Punct
@@ -144,7 +161,7 @@ ScanCloseNoMatch ==
     /\ br' = Pop /\ Literal /\ UNCHANGED <<txt, phase>>
 Finish == /\ phase = "scan" /\ pos > Len(txt) /\ phase' = "done" /\ UNCHANGED <<txt, pos, br, out>>
 
-RNext == ScanOther \/ ScanEscape \/ ScanOpen \/ ScanImageOpen \/ ScanCloseNone \/ ScanCloseInactive \/ ScanCloseMatch \/ ScanCloseNoMatch \/ Finish
+RNext == ScanOther \/ ScanEscape \/ ScanCode \/ ScanOpen \/ ScanImageOpen \/ ScanCloseNone \/ ScanCloseInactive \/ ScanCloseMatch \/ ScanCloseNoMatch \/ Finish
 RSpec == RInit /\ [][RNext]_rvars
 
 ---------------------------------------------------------------------------
@@ -178,6 +195,7 @@ Render(o, imgDepth) ==
     IF o = << >> THEN ""
     ELSE LET h == Head(o) IN
          (CASE h.k = "c"  -> txt[h.p]
+            [] h.k = "code" -> IF imgDepth = 0 THEN "<code>" \o h.d \o "</code>" ELSE h.d
             [] h.k = "la" -> IF imgDepth = 0 THEN "<a href=\"" \o h.d \o "\"" \o (IF h.tt = "" THEN "" ELSE " title=\"" \o h.tt \o "\"") \o ">" ELSE ""
             [] h.k = "lz" -> IF imgDepth = 0 THEN "</a>" ELSE ""
             [] h.k = "ia" -> IF imgDepth = 0 THEN "<img src=\"" \o h.d \o "\" alt=\"" ELSE ""
